@@ -1,6 +1,7 @@
 package main
 
 import (
+	"bytes"
 	"fmt"
 	"go/types"
 	"path"
@@ -664,4 +665,123 @@ func iStrCut(in *Interp, fn *ssa.Function, a []Value) Value {
 		return Tuple{parts[0], after, mkBool(true)}
 	}
 	panic(abort("strings.Cut on symbolic string without a registered decomposition"))
+}
+
+// ---------- internal/bytealg (assembly in the real build) ----------
+
+func init() {
+	intrinsics["internal/bytealg.IndexByte"] = func(in *Interp, fn *ssa.Function, a []Value) Value {
+		return in.bytealgIndexByte(a[0], a[1].(Term))
+	}
+	intrinsics["internal/bytealg.IndexByteString"] = func(in *Interp, fn *ssa.Function, a []Value) Value {
+		return in.bytealgIndexByte(a[0], a[1].(Term))
+	}
+	intrinsics["internal/bytealg.Count"] = func(in *Interp, fn *ssa.Function, a []Value) Value {
+		return in.bytealgCount(a[0], a[1].(Term))
+	}
+	intrinsics["internal/bytealg.CountString"] = func(in *Interp, fn *ssa.Function, a []Value) Value {
+		return in.bytealgCount(a[0], a[1].(Term))
+	}
+}
+
+func byteAsStr(c Term) Term {
+	if c.C {
+		return mkStr(string([]byte{byte(c.U)}))
+	}
+	return symStr("(str.from_code (bv2nat " + c.smt() + "))")
+}
+
+// index of the first byte equal to c, or -1
+func (in *Interp) bytealgIndexByte(v Value, c Term) Value {
+	c = bvConv(c, 8, false)
+	switch x := v.(type) {
+	case Term: // a string
+		if bs, ok := strConcreteBytes(x); ok && c.C {
+			return mkBV(64, uint64(int64(bytes.IndexByte(bs, byte(c.U)))))
+		}
+		return symBV(64, "((_ int2bv 64) (str.indexof "+x.smt()+" "+byteAsStr(c).smt()+" 0))")
+	case Slice:
+		if x.Nil {
+			return mkBV(64, ^uint64(0))
+		}
+		if x.Seq != nil {
+			if x.Seq.Blob != nil {
+				panic(abort("bytealg.IndexByte on an opaque blob"))
+			}
+			return symBV(64, "((_ int2bv 64) (str.indexof "+x.Seq.T.smt()+" "+byteAsStr(c).smt()+" 0))")
+		}
+		res := mkBV(64, ^uint64(0))
+		for i := len(x.A) - 1; i >= 0; i-- {
+			e, ok := x.A[i].(Term)
+			if !ok {
+				panic(abort("bytealg.IndexByte: element is not a byte"))
+			}
+			res = tIte(tEq(bvConv(e, 8, false), c), mkBV(64, uint64(i)), res)
+		}
+		return res
+	}
+	panic(abort("bytealg.IndexByte: unexpected argument"))
+}
+
+// number of bytes equal to c
+func (in *Interp) bytealgCount(v Value, c Term) Value {
+	c = bvConv(c, 8, false)
+	switch x := v.(type) {
+	case Term:
+		if bs, ok := strConcreteBytes(x); ok && c.C {
+			return mkBV(64, uint64(bytes.Count(bs, []byte{byte(c.U)})))
+		}
+		if c.C {
+			if parts, ok := in.splitOf[x.smt()+"\x00"+mkStr(string([]byte{byte(c.U)})).smt()]; ok {
+				return mkBV(64, uint64(len(parts)-1)) // the registered decomposition at this separator
+			}
+		}
+		panic(abort("bytealg.Count on a symbolic string"))
+	case Slice:
+		if x.Nil {
+			return mkBV(64, 0)
+		}
+		if x.Seq != nil {
+			panic(abort("bytealg.Count on a symbolic byte string"))
+		}
+		res := mkBV(64, 0)
+		for _, ev := range x.A {
+			e, ok := ev.(Term)
+			if !ok {
+				panic(abort("bytealg.Count: element is not a byte"))
+			}
+			res = bvBin("+", res, tIte(tEq(bvConv(e, 8, false), c), mkBV(64, 1), mkBV(64, 0)), false)
+		}
+		return res
+	}
+	panic(abort("bytealg.Count: unexpected argument"))
+}
+
+// strings.ReplaceAll: concrete → native; a string whose decomposition at `old` the harness registered (registerSplit)
+// → the parts joined by `new` (keeps the pieces visible to the regexp bridge); otherwise SMT str.replace_all.
+func init() {
+	intrinsics["strings.ReplaceAll"] = func(in *Interp, fn *ssa.Function, a []Value) Value {
+		s, old, nw := a[0].(Term), a[1].(Term), a[2].(Term)
+		if sb, ok := strConcreteBytes(s); ok {
+			if ob, ok := strConcreteBytes(old); ok {
+				if nb, ok := strConcreteBytes(nw); ok {
+					return mkStr(strings.ReplaceAll(string(sb), string(ob), string(nb)))
+				}
+			}
+		}
+		if parts, ok := in.splitOf[s.smt()+"\x00"+old.smt()]; ok {
+			out := mkStr("")
+			for i, p := range parts {
+				if i > 0 {
+					out = strConcat(out, nw)
+				}
+				out = strConcat(out, p)
+			}
+			return out
+		}
+		if ob, ok := strConcreteBytes(old); ok && len(ob) == 0 {
+			panic(abort("strings.ReplaceAll with an empty old string on a symbolic string"))
+		}
+		return symStr("(str.replace_all " + s.smt() + " " + old.smt() + " " + nw.smt() + ")")
+	}
 }
